@@ -448,13 +448,10 @@ fn c05_emit(sub: &Subject, qs: &[Query], note: &str) -> (String, String) {
         holes.iter().map(|h| loop_state_json(h)).collect::<Vec<_>>().join(","), jq.join(","));
     (coq, js)
 }
-pub fn run_c05(seed: u64, n: usize, out: &str) { run_c05_as(seed, n, out, "C05") }
-/// `module` = the Coq runner module: "C05" (the code as it is) or "C05p" (the model of the proposed ray-length repair,
-/// to be used only with a crate copy that carries the repair)
-pub fn run_c05_as(seed: u64, n: usize, out: &str, module: &str) {
+pub fn run_c05(seed: u64, n: usize, out: &str) {
     let mut r = Rng::new(seed ^ 0xC05);
-    let mut sink = Sink::new(out, module, 10);
-    // the witness of DESIGN F7 first: unit square, q = (0.5, 1e-4, 0)
+    let mut sink = Sink::new(out, "C05", 10);
+    // the witness of DESIGN F7 (i) first (fixed by 6f318c4; regression witness): unit square, q = (0.5, 1e-4, 0)
     {
         let fr = Frame::xy();
         let sq = make_loop(&fr, &[(0.0, 0.0), (1.0, 0.0), (1.0, 1.0), (0.0, 1.0)]).unwrap();
